@@ -76,7 +76,9 @@ def expr_text(expr, style=None, top=True):
         parts = []
         for sub in expr[1:]:
             t = expr_text(sub, st, False)
-            if sub[0] == '|':
+            if sub[0] in ('|', '&'):
+                # (a nested intersection is a group the deck writes in
+                # parentheses of its own: -2 1 (-4 3))
                 t = '(' + t + ')'
             parts.append(t)
         return ' '.join(parts)
